@@ -6,5 +6,6 @@ CONSTANTS NClasses = 3
  MaxMarks = 1
  WithDeps = FALSE
  MaxDeps = 2
+ OnlyFaulty = FALSE
 INVARIANT Emit
 CHECK_DEADLOCK FALSE
